@@ -53,6 +53,19 @@ TEMPLATES = {
     "arrdelntnolenV": ('<array name="f{i}" type="V" delimited="true" trailing-delimiter="false"/>', True),
     "lenarrdelnt": ('<length name="n{i}" type="char"/><array name="f{i}" type="string" length="n{i}" delimited="true" trailing-delimiter="false"/>', True),
     "arrstr2del": ('<array name="f{i}" type="string" length="2" delimited="true"/>', True),
+    "three": ('<field name="f{i}" type="three"/>', False),
+    "hardstrpad": ('<field type="string" length="2" padded="true">ab</field>', False),
+    "hardencpad": ('<field name="f{i}" type="encoded_string" length="3" padded="true">abc</field>', False),
+    "arrWover": ('<array name="f{i}" type="W:three" length="2"/>', False),
+    "arrbool": ('<array name="f{i}" type="bool" length="2"/>', False),
+    "optstruct": ('<field name="f{i}" type="S" optional="true"/>', False),
+    "switchenumdef": ('<field name="k{i}" type="E"/><switch field="k{i}"><case value="B"><field name="x" type="char"/></case>'
+                      '<case default="true"><field name="y" type="short" optional="true"/></case></switch>', False),
+    # a <break> resets "an optional field was missing": what follows in the next chunk is written / required again
+    "optbrkopt": ('<field name="a{i}" type="char" optional="true"/><break/>'
+                  '<field name="f{i}" type="string" length="4" padded="true" optional="true"/>', True),
+    "optbrkreq": ('<field name="a{i}" type="short" optional="true"/><break/><field name="f{i}" type="char"/>'
+                  '<array name="g{i}" type="char" length="2"/>', True),
     "optchar": ('<field name="f{i}" type="char" optional="true"/>', False),
     "optstr": ('<field name="f{i}" type="string" optional="true"/>', False),
     "optenum": ('<field name="f{i}" type="E" optional="true"/>', False),
